@@ -421,11 +421,16 @@ def run_boundary(cfgname):
             exp = [e.format(max=mx, maxm1=mx - 1, half=mx // 2, half1=mx // 2 + 1) for e in BOUNDARY_EXPECT]
             got = p.stdout.splitlines()
             res["lines"] = got
-            if p.returncode != 0:
-                res["crashed"] = f"boundary run exited with {p.returncode}: {p.stderr[-300:]}"
+            died = p.returncode != 0
             for e in exp:
                 tag = e.split()[0]
                 g = next((x for x in got if x.startswith(tag + " ")), None)
+                if g is None and died:
+                    # the process died (abort / signal) while producing this line: the operation the
+                    # line reports on did not survive
+                    res["oracle_hits"].append({"property": "C12", "seq": "boundary", "line": 0, "op": "rt boundary", "class": "boundary-" + tag,
+                                               "what": f"{BOUNDARY_WHAT[tag]}: expected `{e}`, but the process running the real code died there (exit {p.returncode}: {p.stderr[-200:].strip()})", "no_shrink": True})
+                    break
                 if g != e and not res.get("crashed"):
                     res["oracle_hits"].append({"property": "C12", "seq": "boundary", "line": 0, "op": "rt boundary", "class": "boundary-" + tag,
                                                "what": f"{BOUNDARY_WHAT[tag]}: expected `{e}`, observed `{g}`", "no_shrink": True})
@@ -453,6 +458,10 @@ def run_shapes(cfgname):
             res["lines"] = got
             if p.returncode != 0:
                 res["crashed"] = f"shapes run exited with {p.returncode}: {p.stderr[-300:]}"
+            l1 = next((x for x in got if x.startswith("L1 ")), None)
+            if not res.get("crashed") and not (l1 and "all_or_nothing=1" in l1 and "errors=0" in l1):
+                res["oracle_hits"].append({"property": "C10", "seq": "shapes", "line": 0, "op": "rt shapes", "class": "shapes-L1", "no_shrink": True,
+                                           "what": f"after a runtime borrow guard was leaked with mem::forget, a create that panics must leave the archetype unchanged and one that returns must have added a whole entity (harness/rt/src/shapes.rs leaked_guard); observed `{l1}`"})
             tags = [f"S{i}" for i in range(1, 8)]
             for tag in tags:
                 g = next((x for x in got if x.startswith(tag + " ")), None)
@@ -856,7 +865,7 @@ def replay(path):
         print(p.stdout[-2500:])
         compiled = p.returncode == 0
         if kind == "rustc-probe":
-            fails = compiled      # the program is one that must NOT compile
+            fails = (not compiled) if data.get("must_compile") else compiled      # unsound program: must NOT compile
         else:
             out = []
             if compiled:
@@ -897,8 +906,8 @@ RT_PROPS = {
     "C02": dict(profiles=["query", "mix", "clone", "grow"], ops={"probe", "write", "rows", "iter", "iterb", "iterd", "find", "findb", "destroy", "clone", "create", "createw"}, summary=False),
     "C03": dict(profiles=["forge", "mix", "clone"], ops={"forge", "probe", "wbcreate", "wbdirect", "destroy", "find", "findb", "todirect", "write", "dump"}, summary=False),
     "C04": dict(profiles=["mix", "clone", "churn", "query"], ops={"drop", "destroy", "clone", "createw", "create", "iterd"}, summary=False),
-    "C06": dict(profiles=["query", "mix", "grow"], ops={"iter", "iterb", "rows"}, summary=True),
-    "C07": dict(profiles=["query", "mix", "events"], ops={"iterd", "probe"}, summary=True),
+    "C06": dict(profiles=["query", "mix", "grow"], ops={"iter", "iterb", "iterds", "rows"}, summary=True),
+    "C07": dict(profiles=["query", "mix", "events"], ops={"iterd", "iterds", "probe"}, summary=True),
     "C08": dict(profiles=["churn", "overflow", "grow", "mix", "clone"], ops={"create", "createw", "preset"}, summary=False),
     "C09": dict(profiles=["mix", "query", "churn", "clone"], ops={"todirect", "probe", "iter", "iterb", "iterd", "find", "findb", "destroy", "write"}, summary=True),
     "C12": dict(profiles=["grow", "churn", "mix"], ops={"new", "create", "createw", "destroy", "dump", "iterd"}, summary=True),
@@ -964,7 +973,7 @@ def check_rt(prop, tier, seed):
             streams.append(run_stream(c, pr, seed, t["nseq"], t["maxops"]))
     if prop == "C12":
         streams.append(run_boundary("rel-ew3"))
-    if prop == "C04":
+    if prop in ("C04", "C10"):
         for c in QUICK_CONFIGS:
             streams.append(run_shapes(c))
     if prop == "C17":
